@@ -214,6 +214,10 @@ def check(prop, tier, nproc=None, budget_s=None, only=None):
     jobs = H.jobs(tier)
     if only:
         jobs = [j for j in jobs if only in j.get("name", "")]
+    # long jobs first (better packing on the worker pool); the order has no influence on what is explored
+    heavy = getattr(H, "HEAVY_FIRST", ())
+    if heavy:
+        jobs.sort(key=lambda j: next((i for i, h in enumerate(heavy) if h in j.get("name", "")), len(heavy)))
     budget = budget_s or getattr(H, "BUDGET", {}).get(tier, 1200)
     deadline = t0 + budget
     known = load_known(prop)
